@@ -40,6 +40,9 @@ CHARGE_SETS = {
     "U1U1": [(0, 0), (0, 1), (1, 0), (1, 1), (-1, 1)],
 }
 
+# pool of the seeded random generators: also charges whose CPython hashes collide (hash(-1) == hash(-2))
+RAND_CHARGE_SETS = dict(CHARGE_SETS, U1=[-2, -1, 0, 1, 2], U1U1=[(0, 0), (0, 1), (1, 0), (1, 1), (-1, 1), (-2, 1), (1, -1)])
+
 ABELIAN_CLS = {
     "Z2": sr.Z2Array,
     "U1": sr.U1Array,
@@ -512,7 +515,7 @@ def gen_index_specs(sym, max_charges=2, sizes=(1, 2), duals=(False, True), charg
 
 
 def rand_index_spec(rng, sym, max_charges=3, sizes=(1, 2, 3), dual=None):
-    pool = CHARGE_SETS[sym]
+    pool = RAND_CHARGE_SETS[sym]
     k = int(rng.integers(1, min(max_charges, len(pool)) + 1))
     pick = sorted(rng.choice(len(pool), size=k, replace=False).tolist())
     return {
@@ -665,6 +668,18 @@ class Recorder:
             "errors": self.errors,
         }
 
+    def _ordered_failures(self):
+        # first example of every (obligation, features) class before any second example, so that a cap
+        # can never hide a whole class behind frequent (e.g. known-finding) classes
+        rounds = {}
+        seen = {}
+        for f in self.failures:
+            key = (f["obligation"], tuple(sorted((str(k), str(v)) for k, v in (f.get("features") or {}).items())))
+            n = seen.get(key, 0)
+            seen[key] = n + 1
+            rounds.setdefault(n, []).append(f)
+        return [f for n in sorted(rounds) for f in rounds[n]]
+
     def result(self):
         return {
             "contract": self.name,
@@ -673,7 +688,7 @@ class Recorder:
             "evaluations": self.evaluations,
             "distinct_nontrivial": len(self.fingerprints),
             "samples": self.samples,
-            "failures": self.failures[:400],
+            "failures": self._ordered_failures()[:3000],
             "n_failures": sum(self.fail_counts.values()),
             "failure_classes": [{"obligation": k[0], "features": dict(k[1]), "count": n} for k, n in sorted(self.fail_counts.items(), key=lambda kv: -kv[1])][:100],
             "errors": self.errors[:10],
@@ -694,6 +709,20 @@ def _worker(args):
     return out
 
 
+def interleave(*gens):
+    """round-robin over generators, so that a wall-clock budget thins every family evenly"""
+    its = [iter(g) for g in gens]
+    while its:
+        nxt = []
+        for g in its:
+            try:
+                yield next(g)
+                nxt.append(g)
+            except StopIteration:
+                pass
+        its = nxt
+
+
 def run_driver(modname, tier, seed, nproc=None, budget_s=None):
     """Generic driver runner.
 
@@ -708,7 +737,7 @@ def run_driver(modname, tier, seed, nproc=None, budget_s=None):
     mod = importlib.import_module(modname)
     t0 = time.time()
     if budget_s is None:
-        budget_s = float(os.environ.get("VERIF_BUDGET_S", 75 if tier == "quick" else 1200))
+        budget_s = float(os.environ.get("VERIF_BUDGET_S", 120 if tier == "quick" else 1500))
     recs = {k: Recorder(k, d, b) for k, (d, b) in mod.CONTRACTS.items()}
     nproc = nproc or int(os.environ.get("VERIF_NPROC", 12))
     chunk, chunks = [], []
